@@ -68,6 +68,10 @@ def cases(tier, seed):
         big = c07.fspec("ML", 65535, "BIG", pat=pat)
         yield {"kind": "cas", "hist": ["big", SAVE, "big", SAVE, "big", SAVE, 0, SAVE], "big": big}
         yield {"kind": "cas", "hist": ["big", "big", "big", SAVE, 1, SAVE], "big": big}
+    # fill-to-capacity: k-granule files added one per save/re-open until the disk refuses (the last files land in granules 60-67)
+    for k in (2, 3, 5, 9):
+        yield {"kind": "dsk", "hist": [x for i in range(68 // k + 1) for x in ("g{}".format(k), SAVE)], "fill": k}
+    yield {"kind": "dsk", "hist": [x for i in range(30) for x in ("g2", SAVE)] + ["g3", SAVE, "g3", SAVE, "g1", SAVE, "g1", SAVE, "g1", SAVE], "fill": "mix"}
     ex = exact_size_lengths()
     if ex:
         for pat in ("00", "ff", "dir"):
@@ -77,6 +81,9 @@ def cases(tier, seed):
 def file_of(case, sym):
     if sym == "big":
         return case["big"]
+    if isinstance(sym, str) and sym.startswith("g"):
+        k = int(sym[1:])
+        return c07.fspec("ML", k * 2304 - 10 - 100, "G{}".format(k), pat="ramp7")
     if isinstance(sym, str) and sym.startswith("x"):
         i = int(sym[1:])
         return c07.fspec("ML", case["exact"][i], "X{}".format(i), pat=case["pat"])
@@ -84,6 +91,9 @@ def file_of(case, sym):
 
 
 def cell_of(case):
+    if "fill" in case:
+        return "{}|fill-to-capacity.{}".format(case["kind"], case["fill"])
+
     def t(sym):
         if sym == SAVE:
             return "S"
